@@ -115,7 +115,8 @@ impl<'a> RtcpPacketWriter for RpsiBuilder<'a> {
         {
             return Err(RtcpWriteError::PaddingBitsTooLarge);
         }
-        Ok(pad_to_4bytes(self.native_bit_string.len()))
+        // PB and payload type bytes, then the bit string, rounded up to 32 bits
+        Ok(pad_to_4bytes(2 + self.native_bit_string.len()))
     }
 
     fn write_into_unchecked(&self, buf: &mut [u8]) -> usize {
